@@ -467,7 +467,8 @@ Proof.
     - inversion Hp as [[Hd Hi Hr]]. destruct (_ && ie); inversion Hi. subst. vm_compute. split; [discriminate|reflexivity].
     - inversion Hp.
     - destruct (negb (t_enabled t)); [inversion Hp|].
-      destruct (t_time t =? 0); [destruct draws; inversion Hp|].
+      destruct (t_time t =? 0).
+      { destruct draws as [|x dr0]; inversion Hp as [[Hd Hi Hr]]. destruct (x =? 0); inversion Hi. apply Hc. }
       destruct (t_time t =? 1); inversion Hp. apply Hc.
     - destruct l as [|x l]; [inversion Hp|]. inversion Hp as [[Hd Hi Hr]].
       destruct x as [[v1 p1|]|]; inversion Hi. apply Hc. }
@@ -518,3 +519,112 @@ Proof.
   destruct Ht as [Hp Hg]. constructor; try assumption. eapply pending_prio_range; exact Hp.
 Qed.
 
+(* ------------------------------------------------------------------ boundary: entry never counts as an instruction *)
+(* [KI m]: m leaves instructions_run alone — on every path, in every state (strict or not,
+   wherever the stack pointer points) *)
+Definition KI {A} (m : M A) : Prop := forall s, s_instrs (fst (m s)) = s_instrs s.
+
+Lemma KI_ret {A} (a : A) : KI (ret a). Proof. intro; reflexivity. Qed.
+Lemma KI_fail {A} b : KI (@fail A b). Proof. intro; reflexivity. Qed.
+Lemma KI_err {A} x : KI (@err A x). Proof. intro; reflexivity. Qed.
+Lemma KI_of_opt {A} (o : option A) x : KI (of_opt o x). Proof. destruct o; intro; reflexivity. Qed.
+Lemma KI_modify f : (forall s, s_instrs (f s) = s_instrs s) -> KI (modify f).
+Proof. intros H s. apply H. Qed.
+Lemma KI_bind {A B} (m : M A) (k : A -> M B) : KI m -> (forall a, KI (k a)) -> KI (bind m k).
+Proof.
+  intros Hm Hk s. specialize (Hm s). unfold bind. destruct (m s) as [s1 [a|b]]; cbn [fst] in *; [|exact Hm].
+  rewrite Hk. exact Hm.
+Qed.
+Lemma KI_bind_get {B} (k : sim -> M B) : (forall s0, KI (k s0)) -> KI (bind get k).
+Proof. intros H s. apply H. Qed.
+Lemma KI_if {A} (b : bool) (m1 m2 : M A) : KI m1 -> KI m2 -> KI (if b then m1 else m2).
+Proof. destruct b; auto. Qed.
+
+Lemma KI_read_mem e a c : KI (read_mem e a c).
+Proof.
+  intro s. unfold read_mem. destruct (negb (c_priv c) && negb (in_user a)); [reflexivity|]. cbn [fst].
+  destruct (IO_START <=? a).
+  - destruct (assoc (s_ireg s) a) as [r|].
+    + destruct (c_track c); reflexivity.
+    + destruct (dev_read e (nth_dev (s_devs s) (port_dev a)) a (c_io c)) as [d' [v|]]; destruct (c_track c); reflexivity.
+  - destruct (c_track c); reflexivity.
+Qed.
+Lemma KI_write_mem e a w c : KI (write_mem e a w c).
+Proof.
+  intro s. unfold write_mem. destruct (negb (c_priv c) && negb (in_user a)); [reflexivity|].
+  destruct (IO_START <=? a).
+  - destruct (get_if_init w (c_strict c)) as [d|]; [|reflexivity].
+    destruct (assoc (s_ireg s) a) as [r|].
+    + destruct r; destruct (c_track c); destruct (set_if_init w (c_strict c)); reflexivity.
+    + destruct (dev_write e (nth_dev (s_devs s) (port_dev a)) a d) as [d' [|]]; [|reflexivity].
+      destruct (c_track c); destruct (set_if_init w (c_strict c)); reflexivity.
+  - destruct (c_track c); destruct (set_if_init w (c_strict c)); reflexivity.
+Qed.
+
+Create HintDb ki discriminated.
+#[export] Hint Constants Opaque : ki.
+Ltac ki1 :=
+  lazymatch goal with
+  | |- KI (ret _) => apply KI_ret
+  | |- KI (fail _) => apply KI_fail
+  | |- KI (err _) => apply KI_err
+  | |- KI (of_opt _ _) => apply KI_of_opt
+  | |- KI (read_mem _ _ _) => apply KI_read_mem
+  | |- KI (write_mem _ _ _ _) => apply KI_write_mem
+  | |- KI (modify _) => apply KI_modify; intros; reflexivity
+  | |- KI (bind get _) => apply KI_bind_get; intro
+  | |- KI (bind _ _) => apply KI_bind; [ | intro ]
+  | |- KI (if _ then _ else _) => apply KI_if
+  | |- KI (match ?x with _ => _ end) => destruct x
+  | |- KI _ => solve [auto 1 with ki nocore]
+  end.
+Ltac ki := repeat ki1.
+
+Lemma KI_set_pc w b : KI (set_pc w b). Proof. unfold set_pc. ki. Qed.
+Lemma KI_push_frame a b c : KI (push_frame a b c).
+Proof.
+  unfold push_frame. apply KI_modify. intros s. destruct (s_frames s); [|reflexivity].
+  destruct (match c with FSubroutine => _ | _ => _ end) as [[?k|?l]|]; reflexivity.
+Qed.
+Lemma KI_swap_sp : KI swap_sp. Proof. unfold swap_sp. ki. Qed.
+#[export] Hint Resolve KI_set_pc KI_push_frame KI_swap_sp : ki.
+Lemma KI_call_interrupt e v ft : KI (call_interrupt e v ft). Proof. unfold call_interrupt. ki. Qed.
+#[export] Hint Resolve KI_call_interrupt : ki.
+Lemma KI_handle_some e v p : KI (handle_interrupt e v (Some p)).
+Proof. unfold handle_interrupt. ki. Qed.
+
+(* a taken interrupt replaces the fetch: the step IS the entry, nothing is fetched or counted *)
+Theorem boundary e s v p : takes_irq e s v p ->
+  step_inner e s = handle_interrupt e (256 + v) (Some p) (after_poll e s) /\
+  s_instrs (fst (step_inner e s)) = s_instrs s.
+Proof.
+  intros Ht. rewrite (gate_taken _ _ _ _ Ht). split; [reflexivity|].
+  rewrite KI_handle_some. reflexivity.
+Qed.
+
+
+Lemma entry_fields s s' v p : entry_post s s' v p -> 0 <= s_psr s < 65536 -> 0 <= p < 8 -> regs8 (s_regs s) ->
+  let sp := w_data (entry_sp s) in
+  mget (s_mem s') (wrap16 (sp - 1)) = new_init (s_psr s) /\
+  mget (s_mem s') (wrap16 (sp - 2)) = new_init (s_pc s) /\
+  s_pc s' = w_data (mget (s_mem s') (256 + v)) /\
+  psr_privileged (s_psr s') = true /\ psr_priority (s_psr s') = p /\ psr_cc (s_psr s') = 2 /\
+  s_psr s' = Z.land (s_psr s) 30968 + 256 * p + 2 /\
+  w_data (rget (s_regs s') 6) = wrap16 (sp - 2) /\
+  (psr_privileged (s_psr s) = false -> s_saved_sp s' = rget (s_regs s) 6) /\
+  (psr_privileged (s_psr s) = true -> s_saved_sp s' = s_saved_sp s) /\
+  s_instrs s' = s_instrs s.
+Proof.
+  intros [Hm Hpsr Hpc Hr Hs Hi _ _ _ _ _ _ _ _] Hp16 Hp Hr8. cbv zeta.
+  destruct (psr_facts (s_psr s) p Hp16 Hp) as (_ & F1 & F2 & F3 & F4).
+  rewrite Hm, Hpsr, Hpc, Hr, Hs, Hi. unfold entry_mem.
+  pose proof (wrap16_range (w_data (entry_sp s) - 1)) as R1.
+  pose proof (wrap16_range (w_data (entry_sp s) - 2)) as R2.
+  assert (Hne : wrap16 (w_data (entry_sp s) - 2) <> wrap16 (w_data (entry_sp s) - 1)) by (unfold wrap16; lia).
+  repeat split; try assumption.
+  - rewrite mget_mset_other by lia. apply mget_mset_same.
+  - apply mget_mset_same.
+  - rewrite rget_rset_same by (try lia; unfold regs8 in Hr8; rewrite Hr8; cbn; lia). apply w_data_sub2.
+  - intros Hu. rewrite Hu. reflexivity.
+  - intros Hu. rewrite Hu. reflexivity.
+Qed.
